@@ -1773,13 +1773,16 @@ class EtreeDocumentNode(DocumentNode):
             if root is None:
                 return ''
             return ''.join(etree_iter_strings(root))
-        return ''.join(child.string_value for child in self.children)
+        # the descendant text nodes only: top level comments and PIs do not contribute
+        return ''.join(child.string_value for child in self.children
+                       if isinstance(child, (ElementNode, TextNode)))
 
     @property
     def compat_string_value(self) -> str:
         if not self.children:
             return self.string_value
-        return ''.join(child.compat_string_value for child in self.children)
+        return ''.join(child.compat_string_value for child in self.children
+                       if isinstance(child, (ElementNode, TextNode)))
 
     @property
     def is_extended(self) -> bool:
